@@ -69,7 +69,19 @@ SelSpec == SelInit /\ [][SelNext]_<<vars, set>>
 \* ---- the state machine
 MCReqs == { <<"a", "com">> }
 MCInit == Init /\ set = <<>>
-MCNext == Next /\ UNCHANGED set
+\* one named disjunct per action of the module, so that TLC's coverage is reported per action
+ALoadGood     == (\E s \in Good : LoadGood(s)) /\ UNCHANGED set
+ALoadSame     == LoadSame /\ UNCHANGED set
+ALoadUnusable == (\E u \in Unusable : LoadUnusable(u)) /\ UNCHANGED set
+ALoadError    == (\E e \in Failing : LoadError(e)) /\ UNCHANGED set
+APublish      == Publish /\ UNCHANGED set
+APublish2     == Publish2 /\ UNCHANGED set
+ASleep        == Sleep /\ UNCHANGED set
+AHsInv        == (\E c \in Clients : \E r \in Reqs : HsInv(c, r)) /\ UNCHANGED set
+AHsLoad       == (\E c \in Clients : HsLoad(c)) /\ UNCHANGED set
+AHsSelect     == (\E c \in Clients : HsSelect(c)) /\ UNCHANGED set
+MCNext == ALoadGood \/ ALoadSame \/ ALoadUnusable \/ ALoadError \/ APublish \/ APublish2 \/ ASleep
+          \/ AHsInv \/ AHsLoad \/ AHsSelect
 MCSpec == MCInit /\ [][MCNext]_<<vars, set>>
 \* hist and the time stamps are ghosts of the generator; the MC run abstracts them away
 MCView == <<reg, wpc, pend, last, clock - loadAt, pubSince, nloads, hs, cur, spin, badReg>>
